@@ -89,10 +89,22 @@ func c07Scenarios(r *core.Run) []*core.Trace {
 							e.EndRead(rd, true)
 						}
 					}
-					// a transaction that commits after the aborted ones, then reopen
-					mustBegin(e, txfile.TxOptions{EnableOverflowArea: ovf})
+					// a transaction that commits after the aborted ones (its mapping and list pages may
+					// lie in the overflow area, beyond the data area), then further aborted ones: the
+					// committed state - including those internal pages - has to survive them
+					mustBegin(e, txfile.TxOptions{EnableOverflowArea: ovf, WALLimit: 1000})
 					e.Set(ids[1], 4)
+					e.Set(ids[2], 4)
 					e.Commit()
+					for k := 0; k < 2; k++ {
+						mustBegin(e, txfile.TxOptions{EnableOverflowArea: k == 1})
+						e.Set(ids[3+k], 4)
+						if k == 1 {
+							e.Flush()
+						}
+						e.Rollback(k == 0)
+						e.ReadAll(fmt.Sprintf("after-abort-%d", k))
+					}
 					reopenRead(e, "ro", ids)
 				}))
 			}
